@@ -92,7 +92,8 @@ def same_elements(a, b):
     return a is b or (not hasattr(a, 'e') and a == b)
 
 
-def containers(env, lp, npol, N, d, kd, kr, kc, kq, m=1, binarizer=False, partial=True, labels='int', twin=False):
+def containers(env, lp, npol, N, d, kd, kr, kc, kq, m=1, binarizer=False, partial=True, labels='int', twin=False,
+               reuse=False):
     arms = list(LABELS[labels][:2])
     ctxd = d if needs_contexts(lp, npol) else 0
     BIN = env.ufunc('bin', 2) if binarizer else None
@@ -143,6 +144,24 @@ def containers(env, lp, npol, N, d, kd, kr, kc, kq, m=1, binarizer=False, partia
         o_sub = ask(copy.deepcopy(sub), what, c_q)
         outputs_equal(env, what[:4], o_ref, o_sub)
         env.ob('%s.query_untouched' % what[:4], same_elements(snap, elements(c_q)))
+    if reuse and ctxd and isinstance(c_q, (list, np.ndarray)):
+        # a caller that re-uses its query buffer: the same container object is overwritten in place with new values and
+        # handed to the same bandit again; the answer must be that of a list built from the new values
+        from .common import clone
+        sc, rc = clone(sub), clone(ref)
+        ask(sc, 'expectations', c_q)
+        ask(rc, 'expectations', l_q)
+        q2 = env.reals('q2', (m, ctxd))
+        new_rows = [[q2[i][j] for j in range(ctxd)] for i in range(m)]
+        if isinstance(c_q, list):
+            for i in range(m):
+                c_q[i][:] = new_rows[i]
+        else:
+            for i in range(m):
+                for j in range(ctxd):
+                    c_q[i, j] = new_rows[i][j]
+        outputs_equal(env, 'reused_buffer.expe', ask(rc, 'expectations', [list(r) for r in new_rows]),
+                      ask(sc, 'expectations', c_q))
     if not npol:
         feats = {a: [1.0, float(i)] for i, a in enumerate(arms)}
         before = copy.deepcopy(feats)
@@ -204,6 +223,16 @@ def scenarios(tier):
                                      binarizer=False, partial=True), weight=80, shards=4, max_paths=60000,
                                 bounds=dict(lp='ucb1', np='clusters:2', rows=2, features=2, decisions=kd, rewards='array',
                                             contexts=kc, query='list')))
+    # the caller re-uses (overwrites in place) its query container between two calls on the same bandit
+    for lp, npol, kq in [('linucb', None, 'list'), ('linucb', None, 'array'), ('linucb', None, 'strided'),
+                         ('ucb1', 'knearest:1:cityblock', 'list')] + ([] if q else [('lingreedy', None, 'list'),
+                                                                                    ('ucb1', 'radius:cityblock', 'list'),
+                                                                                    ('ucb1', 'lsh:1:1', 'fortran')]):
+        out.append(Scenario('%s.%s.N2d2.reused_query_%s' % (lp, npol or 'none', kq), containers,
+                            dict(lp=lp, npol=npol, N=2, d=2, kd='list', kr='list', kc='list', kq=kq, m=1, partial=False,
+                                 reuse=True), weight=100 if npol else 20, shards=4 if npol else 1, max_paths=60000,
+                            bounds=dict(lp=lp, np=npol, query=kq, history='fit, query, overwrite the query container in '
+                                        'place, query again')))
     out.append(Scenario('twin.linucb', containers, dict(lp='linucb', npol=None, N=2, d=2, kd='series', kr='array',
                                                         kc='dataframe', kq='fortran', twin=True), twin=True))
     return out
